@@ -344,3 +344,58 @@ def check_tag_table(ctx, P, rule="E1"):
             continue
         ctx.ob(rule + ".ietf", key, got[0]["str"] == want, "`%s` = %r, IETF draft says %r" % (key, got[0]["str"], want), sample={"tag": key, "value": got[0]["str"]})
     return tags
+
+
+def with_mappers(P, fns):
+    """fns plus the crate-local helper functions they call that themselves dispatch on a scheme-tagged enum
+    (e.g. a private `dst_for(scheme)`), so that arm purity is checked where the dispatch actually happens."""
+    out = list(fns)
+    seen = {f.key for f in fns}
+    for f in fns:
+        for bb, t in f.calls():
+            c = t.get("callee") or {}
+            g = P.fns.get(c.get("key"))
+            if g is not None and g.key not in seen and g.trait_default_of not in SCHEME_TRAITS and dispatch_sites(P, g):
+                seen.add(g.key)
+                out.append(g)
+    return out
+
+
+def check_dispatching(ctx, rule, P, fns):
+    """Each entry point selects by scheme: it switches on a scheme-tagged enum itself or through a local mapper."""
+    for f in fns:
+        own = bool(dispatch_sites(P, f))
+        via = [g.key for g in with_mappers(P, [f]) if g is not f]
+        ctx.ob(rule + ".dispatch", f.key, own or bool(via), "scheme dispatch %s" % ("in the function itself" if own else ("through local mapper %s" % via if via else "NOT FOUND: the function no longer selects by scheme")), where=where(f))
+
+
+def scheme_roots(P, f, adt="SignatureSchemes"):
+    """Where does the scheme that selects the tag come from?  Roots (as `param.path` strings) of every switch on
+    `adt` in f, and - for dispatch through a local mapper - of the argument handed to the mapper."""
+    from .flow import projection_root
+
+    ev = evaluate(f)
+    out = []
+    for b, d in sorted(ev.switch.items()):
+        v = G.variant_of_switch(P, f, b, 0)
+        if v and v[0] == adt and d is not None and d.op == "discr":
+            r = projection_root(strip_sites(d).a[0])
+            out.append((r[0].a[1] + r[1]) if r else None)
+    for g in with_mappers(P, [f]):
+        if g is f:
+            continue
+        gev = evaluate(g)
+        proots = []
+        for b, d in sorted(gev.switch.items()):
+            v = G.variant_of_switch(P, g, b, 0)
+            if v and v[0] == adt and d is not None and d.op == "discr":
+                r = projection_root(strip_sites(d).a[0])
+                if r and r[1] == "":
+                    proots.append(r[0].a[0])
+        for bb, s in sorted(ev.sites.items()):
+            if s.callee[0] == g.key:
+                for pi in proots:
+                    if pi - 1 < len(s.args):
+                        r = projection_root(strip_sites(s.args[pi - 1]))
+                        out.append((r[0].a[1] + r[1]) if r else None)
+    return out
